@@ -58,6 +58,10 @@ def no_fbod(t):
 
 
 VOCAB_NEW = {"prefixItems", "$defs", "dependentRequired", "unevaluatedProperties"}
+VOCAB_BY_VERSION = {"DRAFT_7": {"prefixItems", "$defs", "dependentRequired", "unevaluatedProperties"},
+                    "DRAFT_2019_09": {"prefixItems"},
+                    "OPEN_API_3_0": {"prefixItems", "$defs", "dependentRequired", "unevaluatedProperties", "additionalItems", "const", "examples"},
+                    "OPEN_API_3_1": set()}
 
 
 def keywords(j, acc=None, in_props=False):
@@ -72,6 +76,26 @@ def keywords(j, acc=None, in_props=False):
     return acc
 
 
+def all_types(j, in_props=False):
+    """values of the `type` keyword at every schema position"""
+    if isinstance(j, dict):
+        for k, v in j.items():
+            if k == "type" and not in_props: yield v
+            else: yield from all_types(v, in_props=(k in ("properties", "patternProperties", "$defs", "definitions") and not in_props))
+    elif isinstance(j, list):
+        for v in j: yield from all_types(v)
+
+
+def oas30_as_draft7(j, in_props=False):
+    """documented mapping of the OpenAPI 3.0 schema object onto JSON Schema: `nullable: true` also admits null"""
+    if isinstance(j, list): return [oas30_as_draft7(x) for x in j]
+    if not isinstance(j, dict): return j
+    if in_props: return {k: oas30_as_draft7(v) for k, v in j.items()}
+    r = {k: oas30_as_draft7(v, in_props=k in ("properties", "patternProperties", "definitions")) for k, v in j.items() if k not in ("nullable", "example")}
+    if j.get("nullable") is True: return {"anyOf": [{"type": "null"}, r]}
+    return r
+
+
 def pack(t, **extra):
     return dict({"py": t.py, "src": t.decls(), "ty": t.lean, "features": sorted(t.features())}, **extra)
 
@@ -81,6 +105,7 @@ def run(prop, seed, budget, ctx):
     from apischema import deserialize, serialize, ValidationError, settings
     from apischema.json_schema import deserialization_schema, serialization_schema, JsonSchemaVersion
     rnd = random.Random(seed * 7919 + sum(map(ord, prop))); pool = Pool(); g = Gen(rnd, pool, None)
+    g.kinds = g.kinds + ["depreq"]          # dependent_required classes: outside the Lean model (K skipped), inside the P checks
     n_types, per = {"C06": (250, 8), "C07": (250, 8), "C18": (250, 6)}[prop]
     types = [g.ty(3) for _ in range(n_types * budget)]
     if prop == "C06":
@@ -137,6 +162,7 @@ def run(prop, seed, budget, ctx):
         if mo is not None and "error" in mo:
             failures.append(pack(t, kind="K", why="driver error " + str(mo["error"])[:100], k_ok=False)); continue
         if prop == "C18" and extra in ("OPEN_API_3_0", "OPEN_API_3_1"): mo = None      # no Lean model of the OpenAPI rewrite yet
+        if "depreq" in t.features(): mo = None
         if mo is not None and not has_refs:
             kcmp += 1
             k_ok = canon_schema(py_proto(real)) == canon_schema(mo["schema"])
@@ -186,8 +212,8 @@ def run(prop, seed, budget, ctx):
                                          why=["serialized-value-does-not-validate-against-serialization_schema"]))
         else:
             ver = extra
-            new = keywords(real) & VOCAB_NEW
-            if ver != "OPEN_API_3_1" and new:
+            new = keywords(real) & VOCAB_BY_VERSION[ver]
+            if new:
                 failures.append(pack(t, kind="P", ap=ap, version=ver, k_ok=k_ok, real=real, why=["keyword-outside-the-target-vocabulary:" + ",".join(sorted(new))]))
             if ver in ("DRAFT_7", "DRAFT_2019_09"):
                 V = jsonschema.Draft7Validator if ver == "DRAFT_7" else jsonschema.Draft201909Validator
@@ -200,6 +226,23 @@ def run(prop, seed, budget, ctx):
                     if k_ok and mo["valid"][i] != jv:
                         failures.append(pack(t, kind="K", ap=ap, version=ver, d=py_proto(d), d_repr=repr(d), k_ok=False, real=real,
                                              why=f"Lean draft-07/2019-09 validator says {mo['valid'][i]}, jsonschema says {jv}"))
+                    if jv != j0:
+                        failures.append(pack(t, kind="P", ap=ap, version=ver, d=py_proto(d), d_repr=repr(d), k_ok=k_ok, real=real, base=base,
+                                             why=["older-dialect-and-2020-12-schema-disagree-on-an-instance"]))
+            elif ver == "OPEN_API_3_0":
+                # OpenAPI 3.0 through its documented mapping: `type` is a single string, `nullable: true` admits null
+                bad_types = [x for x in all_types(real) if not isinstance(x, str)]
+                if bad_types:
+                    failures.append(pack(t, kind="P", ap=ap, version=ver, k_ok=k_ok, real=real, why=["keyword-outside-the-target-vocabulary:type-list"]))
+                dropped = keywords(base) & {"prefixItems", "dependentRequired", "unevaluatedProperties"}
+                v, v0 = jsonschema.Draft7Validator(oas30_as_draft7(real)), jsonschema.Draft202012Validator(base)
+                for d in data:
+                    evaluations += 1
+                    if t.kind not in Gen.LEAVES: distinct.add(case_hash(t.lean, py_proto(d), ver))
+                    if dropped: hist["OAS3.0:instances-not-compared(dropped keywords)"] += 1; continue
+                    try: jv, j0 = v.is_valid(d), v0.is_valid(d)
+                    except Exception: hist["jsonschema-exc"] += 1; continue
+                    hist[ver + (":valid" if jv else ":invalid")] += 1
                     if jv != j0:
                         failures.append(pack(t, kind="P", ap=ap, version=ver, d=py_proto(d), d_repr=repr(d), k_ok=k_ok, real=real, base=base,
                                              why=["older-dialect-and-2020-12-schema-disagree-on-an-instance"]))
@@ -290,8 +333,13 @@ def replay(prop, case, ctx):
         ver = case["version"]
         real = deserialization_schema(tp, additional_properties=case["ap"], with_schema=False, version=getattr(JsonSchemaVersion, ver))
         base = deserialization_schema(tp, additional_properties=case["ap"], with_schema=False)
-        bad = keywords(real) & VOCAB_NEW if ver != "OPEN_API_3_1" else set()
+        bad = keywords(real) & VOCAB_BY_VERSION[ver]
         fails = bool(bad)
+        if ver == "OPEN_API_3_0":
+            fails = fails or any(not isinstance(x, str) for x in all_types(real))
+            if "d" in case:
+                d = proto_py(case["d"])
+                fails = fails or jsonschema.Draft7Validator(oas30_as_draft7(real)).is_valid(d) != jsonschema.Draft202012Validator(base).is_valid(d)
         if "d" in case and ver in ("DRAFT_7", "DRAFT_2019_09"):
             d = proto_py(case["d"]); V = jsonschema.Draft7Validator if ver == "DRAFT_7" else jsonschema.Draft201909Validator
             fails = fails or V(real).is_valid(d) != jsonschema.Draft202012Validator(base).is_valid(d)
